@@ -5,7 +5,7 @@ Import ListNotations.
 Ltac ftac := repeat (match goal with
   | |- context [if ?c then _ else _] => destruct c
   | |- context [match ?x with Some _ => _ | None => _ end] => destruct x
-  end); simpl; autorewrite with xs; try reflexivity.
+  end); simpl; xs; try reflexivity.
 
 Lemma x_eof_attach d st : x_eof (fst (attach d st)) = x_eof st. Proof. unfold attach; ftac. Qed.
 Lemma x_work_units_attach d st : x_work_units (fst (attach d st)) = x_work_units st. Proof. unfold attach; ftac. Qed.
@@ -134,34 +134,34 @@ Lemma x_bad_attach_fold_release l st : x_bad_attach (fold_left (fun a b => relea
 Lemma x_next_fold_release l st : x_next (fold_left (fun a b => release_blk b a) l st) = x_next st. Proof. revert st; induction l as [|b l IH]; intro st; simpl; [reflexivity|]; rewrite IH; autorewrite with xf; reflexivity. Qed.
 #[export] Hint Rewrite x_eof_fold_release x_work_units_fold_release x_out_slots_fold_release x_num_worker_fold_release x_total_out_fold_release x_total_in_fold_release x_ultra_fold_release x_closed_fold_release x_outq_fold_release x_eof_missing_fold_release x_input_q_fold_release x_head_offs_fold_release x_tail_offs_fold_release x_retr_q_fold_release x_emit_q_fold_release x_reord_q_fold_release x_order_q_fold_release x_unords_fold_release x_next_uid_fold_release x_parse_token_fold_release x_parsing_done_fold_release x_scan_q_fold_release x_reord_offs_fold_release x_parser_bs_fold_release x_par_fold_release x_running_fold_release x_written_fold_release x_failed_fold_release x_bad_attach_fold_release x_next_fold_release : xf.
 
-Lemma x_eof_adv_input lim st : x_eof (adv_input lim st) = x_eof st. Proof. unfold adv_input; autorewrite with xf xs; reflexivity. Qed.
-Lemma x_work_units_adv_input lim st : x_work_units (adv_input lim st) = x_work_units st. Proof. unfold adv_input; autorewrite with xf xs; reflexivity. Qed.
-Lemma x_out_slots_adv_input lim st : x_out_slots (adv_input lim st) = x_out_slots st. Proof. unfold adv_input; autorewrite with xf xs; reflexivity. Qed.
-Lemma x_num_worker_adv_input lim st : x_num_worker (adv_input lim st) = x_num_worker st. Proof. unfold adv_input; autorewrite with xf xs; reflexivity. Qed.
-Lemma x_total_out_adv_input lim st : x_total_out (adv_input lim st) = x_total_out st. Proof. unfold adv_input; autorewrite with xf xs; reflexivity. Qed.
-Lemma x_total_in_adv_input lim st : x_total_in (adv_input lim st) = x_total_in st. Proof. unfold adv_input; autorewrite with xf xs; reflexivity. Qed.
-Lemma x_ultra_adv_input lim st : x_ultra (adv_input lim st) = x_ultra st. Proof. unfold adv_input; autorewrite with xf xs; reflexivity. Qed.
-Lemma x_closed_adv_input lim st : x_closed (adv_input lim st) = x_closed st. Proof. unfold adv_input; autorewrite with xf xs; reflexivity. Qed.
-Lemma x_outq_adv_input lim st : x_outq (adv_input lim st) = x_outq st. Proof. unfold adv_input; autorewrite with xf xs; reflexivity. Qed.
-Lemma x_eof_missing_adv_input lim st : x_eof_missing (adv_input lim st) = x_eof_missing st. Proof. unfold adv_input; autorewrite with xf xs; reflexivity. Qed.
-Lemma x_tail_offs_adv_input lim st : x_tail_offs (adv_input lim st) = x_tail_offs st. Proof. unfold adv_input; autorewrite with xf xs; reflexivity. Qed.
-Lemma x_retr_q_adv_input lim st : x_retr_q (adv_input lim st) = x_retr_q st. Proof. unfold adv_input; autorewrite with xf xs; reflexivity. Qed.
-Lemma x_emit_q_adv_input lim st : x_emit_q (adv_input lim st) = x_emit_q st. Proof. unfold adv_input; autorewrite with xf xs; reflexivity. Qed.
-Lemma x_reord_q_adv_input lim st : x_reord_q (adv_input lim st) = x_reord_q st. Proof. unfold adv_input; autorewrite with xf xs; reflexivity. Qed.
-Lemma x_order_q_adv_input lim st : x_order_q (adv_input lim st) = x_order_q st. Proof. unfold adv_input; autorewrite with xf xs; reflexivity. Qed.
-Lemma x_unords_adv_input lim st : x_unords (adv_input lim st) = x_unords st. Proof. unfold adv_input; autorewrite with xf xs; reflexivity. Qed.
-Lemma x_next_uid_adv_input lim st : x_next_uid (adv_input lim st) = x_next_uid st. Proof. unfold adv_input; autorewrite with xf xs; reflexivity. Qed.
-Lemma x_parse_token_adv_input lim st : x_parse_token (adv_input lim st) = x_parse_token st. Proof. unfold adv_input; autorewrite with xf xs; reflexivity. Qed.
-Lemma x_parsing_done_adv_input lim st : x_parsing_done (adv_input lim st) = x_parsing_done st. Proof. unfold adv_input; autorewrite with xf xs; reflexivity. Qed.
-Lemma x_scan_q_adv_input lim st : x_scan_q (adv_input lim st) = x_scan_q st. Proof. unfold adv_input; autorewrite with xf xs; reflexivity. Qed.
-Lemma x_reord_offs_adv_input lim st : x_reord_offs (adv_input lim st) = x_reord_offs st. Proof. unfold adv_input; autorewrite with xf xs; reflexivity. Qed.
-Lemma x_parser_bs_adv_input lim st : x_parser_bs (adv_input lim st) = x_parser_bs st. Proof. unfold adv_input; autorewrite with xf xs; reflexivity. Qed.
-Lemma x_par_adv_input lim st : x_par (adv_input lim st) = x_par st. Proof. unfold adv_input; autorewrite with xf xs; reflexivity. Qed.
-Lemma x_running_adv_input lim st : x_running (adv_input lim st) = x_running st. Proof. unfold adv_input; autorewrite with xf xs; reflexivity. Qed.
-Lemma x_written_adv_input lim st : x_written (adv_input lim st) = x_written st. Proof. unfold adv_input; autorewrite with xf xs; reflexivity. Qed.
-Lemma x_failed_adv_input lim st : x_failed (adv_input lim st) = x_failed st. Proof. unfold adv_input; autorewrite with xf xs; reflexivity. Qed.
-Lemma x_bad_attach_adv_input lim st : x_bad_attach (adv_input lim st) = x_bad_attach st. Proof. unfold adv_input; autorewrite with xf xs; reflexivity. Qed.
-Lemma x_next_adv_input lim st : x_next (adv_input lim st) = x_next st. Proof. unfold adv_input; autorewrite with xf xs; reflexivity. Qed.
+Lemma x_eof_adv_input lim st : x_eof (adv_input lim st) = x_eof st. Proof. unfold adv_input; xs; autorewrite with xf; xs; reflexivity. Qed.
+Lemma x_work_units_adv_input lim st : x_work_units (adv_input lim st) = x_work_units st. Proof. unfold adv_input; xs; autorewrite with xf; xs; reflexivity. Qed.
+Lemma x_out_slots_adv_input lim st : x_out_slots (adv_input lim st) = x_out_slots st. Proof. unfold adv_input; xs; autorewrite with xf; xs; reflexivity. Qed.
+Lemma x_num_worker_adv_input lim st : x_num_worker (adv_input lim st) = x_num_worker st. Proof. unfold adv_input; xs; autorewrite with xf; xs; reflexivity. Qed.
+Lemma x_total_out_adv_input lim st : x_total_out (adv_input lim st) = x_total_out st. Proof. unfold adv_input; xs; autorewrite with xf; xs; reflexivity. Qed.
+Lemma x_total_in_adv_input lim st : x_total_in (adv_input lim st) = x_total_in st. Proof. unfold adv_input; xs; autorewrite with xf; xs; reflexivity. Qed.
+Lemma x_ultra_adv_input lim st : x_ultra (adv_input lim st) = x_ultra st. Proof. unfold adv_input; xs; autorewrite with xf; xs; reflexivity. Qed.
+Lemma x_closed_adv_input lim st : x_closed (adv_input lim st) = x_closed st. Proof. unfold adv_input; xs; autorewrite with xf; xs; reflexivity. Qed.
+Lemma x_outq_adv_input lim st : x_outq (adv_input lim st) = x_outq st. Proof. unfold adv_input; xs; autorewrite with xf; xs; reflexivity. Qed.
+Lemma x_eof_missing_adv_input lim st : x_eof_missing (adv_input lim st) = x_eof_missing st. Proof. unfold adv_input; xs; autorewrite with xf; xs; reflexivity. Qed.
+Lemma x_tail_offs_adv_input lim st : x_tail_offs (adv_input lim st) = x_tail_offs st. Proof. unfold adv_input; xs; autorewrite with xf; xs; reflexivity. Qed.
+Lemma x_retr_q_adv_input lim st : x_retr_q (adv_input lim st) = x_retr_q st. Proof. unfold adv_input; xs; autorewrite with xf; xs; reflexivity. Qed.
+Lemma x_emit_q_adv_input lim st : x_emit_q (adv_input lim st) = x_emit_q st. Proof. unfold adv_input; xs; autorewrite with xf; xs; reflexivity. Qed.
+Lemma x_reord_q_adv_input lim st : x_reord_q (adv_input lim st) = x_reord_q st. Proof. unfold adv_input; xs; autorewrite with xf; xs; reflexivity. Qed.
+Lemma x_order_q_adv_input lim st : x_order_q (adv_input lim st) = x_order_q st. Proof. unfold adv_input; xs; autorewrite with xf; xs; reflexivity. Qed.
+Lemma x_unords_adv_input lim st : x_unords (adv_input lim st) = x_unords st. Proof. unfold adv_input; xs; autorewrite with xf; xs; reflexivity. Qed.
+Lemma x_next_uid_adv_input lim st : x_next_uid (adv_input lim st) = x_next_uid st. Proof. unfold adv_input; xs; autorewrite with xf; xs; reflexivity. Qed.
+Lemma x_parse_token_adv_input lim st : x_parse_token (adv_input lim st) = x_parse_token st. Proof. unfold adv_input; xs; autorewrite with xf; xs; reflexivity. Qed.
+Lemma x_parsing_done_adv_input lim st : x_parsing_done (adv_input lim st) = x_parsing_done st. Proof. unfold adv_input; xs; autorewrite with xf; xs; reflexivity. Qed.
+Lemma x_scan_q_adv_input lim st : x_scan_q (adv_input lim st) = x_scan_q st. Proof. unfold adv_input; xs; autorewrite with xf; xs; reflexivity. Qed.
+Lemma x_reord_offs_adv_input lim st : x_reord_offs (adv_input lim st) = x_reord_offs st. Proof. unfold adv_input; xs; autorewrite with xf; xs; reflexivity. Qed.
+Lemma x_parser_bs_adv_input lim st : x_parser_bs (adv_input lim st) = x_parser_bs st. Proof. unfold adv_input; xs; autorewrite with xf; xs; reflexivity. Qed.
+Lemma x_par_adv_input lim st : x_par (adv_input lim st) = x_par st. Proof. unfold adv_input; xs; autorewrite with xf; xs; reflexivity. Qed.
+Lemma x_running_adv_input lim st : x_running (adv_input lim st) = x_running st. Proof. unfold adv_input; xs; autorewrite with xf; xs; reflexivity. Qed.
+Lemma x_written_adv_input lim st : x_written (adv_input lim st) = x_written st. Proof. unfold adv_input; xs; autorewrite with xf; xs; reflexivity. Qed.
+Lemma x_failed_adv_input lim st : x_failed (adv_input lim st) = x_failed st. Proof. unfold adv_input; xs; autorewrite with xf; xs; reflexivity. Qed.
+Lemma x_bad_attach_adv_input lim st : x_bad_attach (adv_input lim st) = x_bad_attach st. Proof. unfold adv_input; xs; autorewrite with xf; xs; reflexivity. Qed.
+Lemma x_next_adv_input lim st : x_next (adv_input lim st) = x_next st. Proof. unfold adv_input; xs; autorewrite with xf; xs; reflexivity. Qed.
 #[export] Hint Rewrite x_eof_adv_input x_work_units_adv_input x_out_slots_adv_input x_num_worker_adv_input x_total_out_adv_input x_total_in_adv_input x_ultra_adv_input x_closed_adv_input x_outq_adv_input x_eof_missing_adv_input x_tail_offs_adv_input x_retr_q_adv_input x_emit_q_adv_input x_reord_q_adv_input x_order_q_adv_input x_unords_adv_input x_next_uid_adv_input x_parse_token_adv_input x_parsing_done_adv_input x_scan_q_adv_input x_reord_offs_adv_input x_parser_bs_adv_input x_par_adv_input x_running_adv_input x_written_adv_input x_failed_adv_input x_bad_attach_adv_input x_next_adv_input : xf.
 
 Lemma x_eof_adv_jobs cfg st : x_eof (adv_jobs cfg st) = x_eof st. Proof. unfold adv_jobs; ftac. Qed.
@@ -228,29 +228,29 @@ Lemma x_bad_attach_adv_scans st : x_bad_attach (adv_scans st) = x_bad_attach st.
 Lemma x_next_adv_scans st : x_next (adv_scans st) = x_next st. Proof. unfold adv_scans; ftac. Qed.
 #[export] Hint Rewrite x_eof_adv_scans x_work_units_adv_scans x_out_slots_adv_scans x_in_slots_adv_scans x_num_worker_adv_scans x_total_out_adv_scans x_total_in_adv_scans x_ultra_adv_scans x_closed_adv_scans x_outq_adv_scans x_eof_missing_adv_scans x_input_q_adv_scans x_zombies_adv_scans x_head_offs_adv_scans x_tail_offs_adv_scans x_retr_q_adv_scans x_emit_q_adv_scans x_reord_q_adv_scans x_order_q_adv_scans x_unords_adv_scans x_next_uid_adv_scans x_parse_token_adv_scans x_parsing_done_adv_scans x_reord_offs_adv_scans x_parser_bs_adv_scans x_par_adv_scans x_running_adv_scans x_written_adv_scans x_failed_adv_scans x_bad_attach_adv_scans x_next_adv_scans : xf.
 
-Lemma x_eof_advance cfg bs st : x_eof (advance cfg bs st) = x_eof st. Proof. unfold advance; autorewrite with xf xs; reflexivity. Qed.
-Lemma x_out_slots_advance cfg bs st : x_out_slots (advance cfg bs st) = x_out_slots st. Proof. unfold advance; autorewrite with xf xs; reflexivity. Qed.
-Lemma x_num_worker_advance cfg bs st : x_num_worker (advance cfg bs st) = x_num_worker st. Proof. unfold advance; autorewrite with xf xs; reflexivity. Qed.
-Lemma x_total_out_advance cfg bs st : x_total_out (advance cfg bs st) = x_total_out st. Proof. unfold advance; autorewrite with xf xs; reflexivity. Qed.
-Lemma x_total_in_advance cfg bs st : x_total_in (advance cfg bs st) = x_total_in st. Proof. unfold advance; autorewrite with xf xs; reflexivity. Qed.
-Lemma x_ultra_advance cfg bs st : x_ultra (advance cfg bs st) = x_ultra st. Proof. unfold advance; autorewrite with xf xs; reflexivity. Qed.
-Lemma x_closed_advance cfg bs st : x_closed (advance cfg bs st) = x_closed st. Proof. unfold advance; autorewrite with xf xs; reflexivity. Qed.
-Lemma x_outq_advance cfg bs st : x_outq (advance cfg bs st) = x_outq st. Proof. unfold advance; autorewrite with xf xs; reflexivity. Qed.
-Lemma x_eof_missing_advance cfg bs st : x_eof_missing (advance cfg bs st) = x_eof_missing st. Proof. unfold advance; autorewrite with xf xs; reflexivity. Qed.
-Lemma x_tail_offs_advance cfg bs st : x_tail_offs (advance cfg bs st) = x_tail_offs st. Proof. unfold advance; autorewrite with xf xs; reflexivity. Qed.
-Lemma x_emit_q_advance cfg bs st : x_emit_q (advance cfg bs st) = x_emit_q st. Proof. unfold advance; autorewrite with xf xs; reflexivity. Qed.
-Lemma x_reord_q_advance cfg bs st : x_reord_q (advance cfg bs st) = x_reord_q st. Proof. unfold advance; autorewrite with xf xs; reflexivity. Qed.
-Lemma x_order_q_advance cfg bs st : x_order_q (advance cfg bs st) = x_order_q st. Proof. unfold advance; autorewrite with xf xs; reflexivity. Qed.
-Lemma x_next_uid_advance cfg bs st : x_next_uid (advance cfg bs st) = x_next_uid st. Proof. unfold advance; autorewrite with xf xs; reflexivity. Qed.
-Lemma x_parse_token_advance cfg bs st : x_parse_token (advance cfg bs st) = x_parse_token st. Proof. unfold advance; autorewrite with xf xs; reflexivity. Qed.
-Lemma x_parsing_done_advance cfg bs st : x_parsing_done (advance cfg bs st) = x_parsing_done st. Proof. unfold advance; autorewrite with xf xs; reflexivity. Qed.
-Lemma x_reord_offs_advance cfg bs st : x_reord_offs (advance cfg bs st) = x_reord_offs st. Proof. unfold advance; autorewrite with xf xs; reflexivity. Qed.
-Lemma x_par_advance cfg bs st : x_par (advance cfg bs st) = x_par st. Proof. unfold advance; autorewrite with xf xs; reflexivity. Qed.
-Lemma x_running_advance cfg bs st : x_running (advance cfg bs st) = x_running st. Proof. unfold advance; autorewrite with xf xs; reflexivity. Qed.
-Lemma x_written_advance cfg bs st : x_written (advance cfg bs st) = x_written st. Proof. unfold advance; autorewrite with xf xs; reflexivity. Qed.
-Lemma x_failed_advance cfg bs st : x_failed (advance cfg bs st) = x_failed st. Proof. unfold advance; autorewrite with xf xs; reflexivity. Qed.
-Lemma x_bad_attach_advance cfg bs st : x_bad_attach (advance cfg bs st) = x_bad_attach st. Proof. unfold advance; autorewrite with xf xs; reflexivity. Qed.
-Lemma x_next_advance cfg bs st : x_next (advance cfg bs st) = x_next st. Proof. unfold advance; autorewrite with xf xs; reflexivity. Qed.
+Lemma x_eof_advance cfg bs st : x_eof (advance cfg bs st) = x_eof st. Proof. unfold advance; xs; autorewrite with xf; xs; reflexivity. Qed.
+Lemma x_out_slots_advance cfg bs st : x_out_slots (advance cfg bs st) = x_out_slots st. Proof. unfold advance; xs; autorewrite with xf; xs; reflexivity. Qed.
+Lemma x_num_worker_advance cfg bs st : x_num_worker (advance cfg bs st) = x_num_worker st. Proof. unfold advance; xs; autorewrite with xf; xs; reflexivity. Qed.
+Lemma x_total_out_advance cfg bs st : x_total_out (advance cfg bs st) = x_total_out st. Proof. unfold advance; xs; autorewrite with xf; xs; reflexivity. Qed.
+Lemma x_total_in_advance cfg bs st : x_total_in (advance cfg bs st) = x_total_in st. Proof. unfold advance; xs; autorewrite with xf; xs; reflexivity. Qed.
+Lemma x_ultra_advance cfg bs st : x_ultra (advance cfg bs st) = x_ultra st. Proof. unfold advance; xs; autorewrite with xf; xs; reflexivity. Qed.
+Lemma x_closed_advance cfg bs st : x_closed (advance cfg bs st) = x_closed st. Proof. unfold advance; xs; autorewrite with xf; xs; reflexivity. Qed.
+Lemma x_outq_advance cfg bs st : x_outq (advance cfg bs st) = x_outq st. Proof. unfold advance; xs; autorewrite with xf; xs; reflexivity. Qed.
+Lemma x_eof_missing_advance cfg bs st : x_eof_missing (advance cfg bs st) = x_eof_missing st. Proof. unfold advance; xs; autorewrite with xf; xs; reflexivity. Qed.
+Lemma x_tail_offs_advance cfg bs st : x_tail_offs (advance cfg bs st) = x_tail_offs st. Proof. unfold advance; xs; autorewrite with xf; xs; reflexivity. Qed.
+Lemma x_emit_q_advance cfg bs st : x_emit_q (advance cfg bs st) = x_emit_q st. Proof. unfold advance; xs; autorewrite with xf; xs; reflexivity. Qed.
+Lemma x_reord_q_advance cfg bs st : x_reord_q (advance cfg bs st) = x_reord_q st. Proof. unfold advance; xs; autorewrite with xf; xs; reflexivity. Qed.
+Lemma x_order_q_advance cfg bs st : x_order_q (advance cfg bs st) = x_order_q st. Proof. unfold advance; xs; autorewrite with xf; xs; reflexivity. Qed.
+Lemma x_next_uid_advance cfg bs st : x_next_uid (advance cfg bs st) = x_next_uid st. Proof. unfold advance; xs; autorewrite with xf; xs; reflexivity. Qed.
+Lemma x_parse_token_advance cfg bs st : x_parse_token (advance cfg bs st) = x_parse_token st. Proof. unfold advance; xs; autorewrite with xf; xs; reflexivity. Qed.
+Lemma x_parsing_done_advance cfg bs st : x_parsing_done (advance cfg bs st) = x_parsing_done st. Proof. unfold advance; xs; autorewrite with xf; xs; reflexivity. Qed.
+Lemma x_reord_offs_advance cfg bs st : x_reord_offs (advance cfg bs st) = x_reord_offs st. Proof. unfold advance; xs; autorewrite with xf; xs; reflexivity. Qed.
+Lemma x_par_advance cfg bs st : x_par (advance cfg bs st) = x_par st. Proof. unfold advance; xs; autorewrite with xf; xs; reflexivity. Qed.
+Lemma x_running_advance cfg bs st : x_running (advance cfg bs st) = x_running st. Proof. unfold advance; xs; autorewrite with xf; xs; reflexivity. Qed.
+Lemma x_written_advance cfg bs st : x_written (advance cfg bs st) = x_written st. Proof. unfold advance; xs; autorewrite with xf; xs; reflexivity. Qed.
+Lemma x_failed_advance cfg bs st : x_failed (advance cfg bs st) = x_failed st. Proof. unfold advance; xs; autorewrite with xf; xs; reflexivity. Qed.
+Lemma x_bad_attach_advance cfg bs st : x_bad_attach (advance cfg bs st) = x_bad_attach st. Proof. unfold advance; xs; autorewrite with xf; xs; reflexivity. Qed.
+Lemma x_next_advance cfg bs st : x_next (advance cfg bs st) = x_next st. Proof. unfold advance; xs; autorewrite with xf; xs; reflexivity. Qed.
 #[export] Hint Rewrite x_eof_advance x_out_slots_advance x_num_worker_advance x_total_out_advance x_total_in_advance x_ultra_advance x_closed_advance x_outq_advance x_eof_missing_advance x_tail_offs_advance x_emit_q_advance x_reord_q_advance x_order_q_advance x_next_uid_advance x_parse_token_advance x_parsing_done_advance x_reord_offs_advance x_par_advance x_running_advance x_written_advance x_failed_advance x_bad_attach_advance x_next_advance : xf.
 
 Lemma x_eof_add_run c st : x_eof (add_run c st) = x_eof st. Proof. unfold add_run; ftac. Qed.
